@@ -3,15 +3,3 @@ HOOK_COMMITS = []
 _NOTYET = "check not built yet in this round (design in DESIGN.md section 3); model checking is applicable and will be claimed once the explorer exists"
 PENDING = {("C%02d" % i): _NOTYET for i in range(1, 21)}
 
-META = {
- "C18": {
-  "text": "Bounded-exhaustive exploration: every ordered pair of a finite alphabet of values of each type (and every lambda of a "
-          "5-point menu) is evaluated on the real dist2/dist2_grad/wrap/interpolate code and compared with an independent "
-          "reference metric. The quantifier ranges over reals, so the claim is limited to the alphabet (which contains the "
-          "coincident, antipodal, sign-flipped, half-period and many-period cases where shortcuts in the code live).",
-  "design_ref": "DESIGN.md section 3, C18",
-  "note": "Trusted: the harness's reference metric (self-tested against finite differences at start-up); finite alphabet; "
-          "documented singular sets (antipodal unit vectors, quaternion cut locus, exact half period) exempt from the derivative clause only.",
-  "technique": "exhaustive enumeration of all ordered value pairs of a finite alphabet against a reference metric",
- },
-}
